@@ -1563,8 +1563,11 @@ def crosscheck(seed, n=240, workers=16):
                     p["written"]["off"] is None for p in spec["points"]) and (
                     not spec.get("utc")):
                 continue
-            if spec["kind"] == "bad" and not spec.get("utc"):
-                continue
+            if spec["kind"] == "bad" and (
+                    not spec.get("utc") or spec.get("slot") in (
+                        "stdin", "ref", "item", "item1", "item2") or any(
+                        a in ("now", "ref", "-") for a in step["argv"])):
+                continue        # a damaged item may leave "now": clock
             picked.append(step)
             break
 
@@ -1587,6 +1590,11 @@ def crosscheck(seed, n=240, workers=16):
             [sys.executable, "-m", "metomi.isodatetime.main"] + step["argv"],
             input=step.get("stdin") or "", capture_output=True, text=True,
             timeout=120, env=env, cwd="/")
+        if status == "ok" and out.startswith("2000-01-01T00:00:0") and (
+                proc.returncode == 0 and proc.stdout != out):
+            # the simulated clock's start: the invocation printed "now"
+            return {"index": 0, "counters": {"clock_dependent": 1},
+                    "violations": []}
         if status == "ok":
             same = proc.returncode == 0 and proc.stdout == out
         elif status.startswith("exitmsg:"):
